@@ -650,6 +650,8 @@ func parseValue(p *cfgPrimitive, opts *options, str string, parseCfg parse.Confi
 	// second time, whatever they contain.
 	dataOpts := *opts
 	dataOpts.varexp = false
+	// and they belong to the setting holding the text: they report its source
+	dataOpts.meta = p.meta()
 	sub, err := normalize(&dataOpts, ifc)
 	if err != nil {
 		return nil, err
